@@ -6,7 +6,7 @@
 
 use crate::core::rng::Rng;
 use crate::core::{budget, clock, drop_chunks, panic_text, Obs, Tier, Violation, World, WorldInfo};
-use rust_rule_engine::rete::agenda::{Activation, AdvancedAgenda};
+use rust_rule_engine::rete::agenda::{Activation, AdvancedAgenda, ConflictResolutionStrategy};
 use rust_rule_engine::rete::AlphaNode;
 use rust_rule_engine::rete::facts::{FactValue, TypedFacts};
 use rust_rule_engine::rete::network::{ReteUlEngine, ReteUlNode, TypedReteUlEngine, TypedReteUlRule};
@@ -37,6 +37,9 @@ pub enum AOp {
     Create(Act),
     /// add the n-th held activation (modulo) to the agenda
     AddHeld(u8),
+    /// `set_strategy(n-th conflict resolution strategy)`: the property states the order unconditionally, and on
+    /// the pinned tree the strategies do not change it (the heap re-orders by salience, creation, id)
+    SetStrategy(u8),
     /// get_next_activation; `mark`: call mark_rule_fired on what came back
     Next { mark: bool },
     SetFocus(u8),
@@ -180,6 +183,12 @@ fn run_a(ops: &[AOp], obs: &mut Obs) -> Result<(), Violation> {
                 fired_groups.clear();
                 locked.clear();
                 obs.count("probe.reset_fired_flags");
+            }
+            AOp::SetStrategy(n) => {
+                use ConflictResolutionStrategy as S;
+                let all = [S::Salience, S::LEX, S::MEA, S::Depth, S::Breadth, S::Simplicity, S::Complexity, S::Random];
+                ag.set_strategy(all[*n as usize % all.len()]);
+                obs.count("probe.conflict_resolution_strategy_set");
             }
             AOp::Clear => {
                 ag.clear();
@@ -664,6 +673,7 @@ impl World for AgendaWorld {
                 "probe.activation_created_and_held_back",
                 "probe.added_in_another_order_than_created",
                 "probe.history_of_more_than_50_operations",
+                "probe.conflict_resolution_strategy_set",
             ],
             quick_runs: 600_000,
             thorough_runs: 12_000_000,
@@ -682,12 +692,15 @@ impl World for AgendaWorld {
             let groups = 1 + rng.usize(3) as u8;
             // one run in three creates some activations first and adds them later, in another order
             let split = rng.chance(1, 3);
+            // one run in four calls set_strategy now and then
+            let strategies = rng.chance(1, 4);
             let sal = [*rng.pick(&[-1i32, 0, 5]), 0, *rng.pick(&[10i32, i32::MAX, 1])];
             let mut ops = Vec::new();
             let mut stall_left = 0;
             for _ in 0..n {
-                let w = rng.weighted(&[42, 30, 6, 6, 3, if split { 12 } else { 0 }, if split { 12 } else { 0 }]);
+                let w = rng.weighted(&[42, 30, 6, 6, 3, if split { 12 } else { 0 }, if split { 12 } else { 0 }, if strategies { 5 } else { 0 }]);
                 ops.push(match w {
+                    7 => AOp::SetStrategy(rng.below(8) as u8),
                     5 | 6 => {
                         if w == 6 {
                             AOp::AddHeld(rng.below(4) as u8)
